@@ -637,6 +637,21 @@ pub fn seed_hoarder(n: usize) -> Seed {
     s
 }
 
+/// Queue a retains `n` records of 400-600 bytes (one call each, never truncated): a long queue in
+/// which the payload bytes dominate the per-record bookkeeping, so that memory that is not released
+/// (or counted twice) shows in the accounting whatever the per-record allowance.
+pub fn seed_hoarder_big(n: usize) -> Seed {
+    let mut p = Planner::new();
+    p.push(Op::Create(QA)).push(Op::Create(QB));
+    for i in 0..n {
+        p.push(Op::app(QA, Pos::Auto, Sz::N(400 + ((i * 37) % 200) as u32)));
+    }
+    p.push(s3(QB));
+    let mut s = p.seed(&format!("hoarder-big:a retains {} records of 400-600 bytes", n));
+    s.predicted_cursor = None;
+    s
+}
+
 pub fn long_history_seeds() -> Vec<Seed> {
     vec![seed_aged(11), seed_aged(26), seed_hoarder(40), seed_hoarder(130)]
 }
